@@ -166,6 +166,8 @@ def run_scan(binary, files, globs, env_extra=None, extra_args=()):
 
 
 def save_replay(prop, name, files, cmdline, note, violation, stdin_file=None):
+    import re as _re
+    name = _re.sub(r'[^A-Za-z0-9_.-]+', '_', name)      # the path is printed on the VIOLATION line: no blanks
     rd = replay_dir(prop, name)
     git_init(rd)
     for fname, content in files.items():
